@@ -25,6 +25,8 @@ Inductive exn :=
 | ValueError           (* Cryptodome: data not aligned to the block size in ECB mode *)
 | IndexError
 | MissingPayload       (* whad.unifying.exceptions.MissingEncryptedKeystrokePayload *)
+| MissingSecurityFlag  (* whad.rf4ce.exceptions.MissingRF4CESecurityFlag *)
+| MissingHeader        (* whad.rf4ce.exceptions.MissingRF4CEHeader *)
 | OtherExn.
 
 Inductive outcome (A : Type) :=
@@ -37,7 +39,8 @@ Definition exn_eqb (a b : exn) : bool :=
   match a, b with
   | MissingKeyError, MissingKeyError | BadMICError, BadMICError | AttributeError, AttributeError
   | StructError, StructError | ValueError, ValueError | IndexError, IndexError
-  | MissingPayload, MissingPayload | OtherExn, OtherExn => true
+  | MissingPayload, MissingPayload | OtherExn, OtherExn
+  | MissingSecurityFlag, MissingSecurityFlag | MissingHeader, MissingHeader => true
   | _, _ => false
   end.
 
@@ -352,12 +355,16 @@ Section RF4CE.
     let legacy := v_legacy v in
     let f0 := N.lor (r_fctl x) 32 in                     (* packet.reserved = 1 *)
     let fa := if legacy then f0 else N.lor f0 4 in       (* fix: security flag set first *)
+    (* no usable address: (packet, False); before the fix a bare RF4CE frame (no 802.15.4
+       layer) raised AttributeError on packet.fcf_srcaddrmode *)
     match r_src x with
-    | None => if r_has_mac x then RTuple (r_pre x ++ rf_nwk (r_fctl x) (r_fc x) (r_hdr x) (r_payload x) (r_mic x)) false
+    | None => if (r_has_mac x || negb legacy)%bool
+              then RTuple (r_pre x ++ rf_nwk (if legacy then r_fctl x else fa) (r_fc x) (r_hdr x) (r_payload x) (r_mic x)) false
               else RRaise AttributeError
     | Some src =>
       match r_dst x with
-      | None => if r_has_mac x then RTuple (r_pre x ++ rf_nwk fa (r_fc x) (r_hdr x) (r_payload x) (r_mic x)) false
+      | None => if (r_has_mac x || negb legacy)%bool
+                then RTuple (r_pre x ++ rf_nwk fa (r_fc x) (r_hdr x) (r_payload x) (r_mic x)) false
                 else RRaise AttributeError
       | Some dst =>
         if (legacy && negb (r_has_layer x))%bool then RRaise IndexError else
@@ -380,16 +387,21 @@ Section RF4CE.
   Definition rf_decrypt (v : variant) (key : bytes) (x : rf_in) : rf_out :=
     let legacy := v_legacy v in
     let f0 := N.lor (r_fctl x) 32 in
+    (* a frame whose security flag is clear has no MIC: MissingRF4CESecurityFlag, before anything
+       else (before the fix the check was commented out and pack("<I", None) raised struct.error) *)
+    if (negb legacy && negb (rf_sec (r_fctl x)))%bool then RRaise MissingSecurityFlag else
     match r_src x with
-    | None => if r_has_mac x then RTuple (r_pre x ++ rf_nwk (r_fctl x) (r_fc x) (r_hdr x) (r_payload x) (r_mic x)) false
+    | None => if (r_has_mac x || negb legacy)%bool
+              then RTuple (r_pre x ++ rf_nwk (if r_has_mac x then r_fctl x else f0) (r_fc x) (r_hdr x) (r_payload x) (r_mic x)) false
               else RRaise AttributeError
     | Some src =>
       match r_dst x with
-      | None => if r_has_mac x then RTuple (r_pre x ++ rf_nwk f0 (r_fc x) (r_hdr x) (r_payload x) (r_mic x)) false
+      | None => if (r_has_mac x || negb legacy)%bool
+                then RTuple (r_pre x ++ rf_nwk f0 (r_fc x) (r_hdr x) (r_payload x) (r_mic x)) false
                 else RRaise AttributeError
       | Some dst =>
         if (legacy && negb (r_has_layer x))%bool then RRaise IndexError else
-        if negb (rf_sec (r_fctl x)) then RRaise StructError      (* pack("<I", None) *)
+        if negb (rf_sec (r_fctl x)) then RRaise StructError      (* legacy only: pack("<I", None) *)
         else
           let ct := r_payload x in
           let full := r_pre x ++ rf_nwk f0 (r_fc x) (r_hdr x) ct (r_mic x) in
@@ -399,6 +411,13 @@ Section RF4CE.
           end
       end
     end.
+
+  (** the packet handed to the manager may have no RF4CE_Hdr layer at all (802.15.4 frame
+      without NWK payload): MissingRF4CEHeader *)
+  Definition rf_encrypt_top (v : variant) (key : bytes) (o : option rf_in) : rf_out :=
+    match o with None => RRaise MissingHeader | Some x => rf_encrypt v key x end.
+  Definition rf_decrypt_top (v : variant) (key : bytes) (o : option rf_in) : rf_out :=
+    match o with None => RRaise MissingHeader | Some x => rf_decrypt v key x end.
 End RF4CE.
 
 Definition rf_wf (x : rf_in) : Prop :=
@@ -521,6 +540,7 @@ Definition exn_code (e : exn) : N :=
   match e with
   | BadMICError => 0 | MissingKeyError => 3 | AttributeError => 4 | ValueError => 5
   | IndexError => 6 | StructError => 7 | MissingPayload => 8 | OtherExn => 8
+  | MissingSecurityFlag => 10 | MissingHeader => 11
   end%N.
 
 Definition lw_wire_class (v : variant) (k : keys3) (w : bytes) : N :=
@@ -587,6 +607,12 @@ Definition rf_wire_class (v : variant) (key : bytes) (npre : nat) (src dst : opt
 Definition check_rf_sweep (c : bool * bytes * nat * option bytes * option bytes * bool * bytes * list N) : bool :=
   let '(legacy, key, npre, src, dst, has_mac, w, obs) := c in
   sweep_ok (fun i => rf_wire_class {| v_legacy := legacy |} key npre src dst has_mac (flip_bit (8 * npre + i) w)) 0 obs.
+
+(** packet without RF4CE_Hdr: (legacy, key, observed encrypt result, observed decrypt result) *)
+Definition check_rf_nohdr (c : bool * bytes * rf_out * rf_out) : bool :=
+  let '(legacy, key, oe, od) := c in
+  rf_out_eqb (rf_encrypt_top aes128_enc {| v_legacy := legacy |} key None) oe &&
+  rf_out_eqb (rf_decrypt_top aes128_enc {| v_legacy := legacy |} key None) od.
 
 (** RF4CE decrypt of a given frame: (legacy, key, input, observed result) *)
 Definition check_rf_dec (c : bool * bytes * rf_in * rf_out) : bool :=
